@@ -323,6 +323,23 @@ def spacing_rule(ctx, facts):
     E = st["init"] if st["k"] == "Let" else st["r"]
     sub = {id(S): (ratfn.p_atom("#E"), ratfn.ONE)}
     r = ratfn.rat(E, R, sub)
+    # a named increment (`let spacing = C * sample; x_acc += spacing;`): follow the immutable local to the one statement that uses it
+    for _ in range(3):
+        if not (st["k"] == "Let" and st["pat"].get("k") == "Bind" and "Mut" not in st["pat"].get("mode", "")):
+            break
+        lid_ = st["pat"]["id"]
+        uses = [x for x in user_nodes(fn) if x["k"] == "Path" and x["res"].get("local") == lid_ and not hirq.in_log_macro(x)]
+        if len(uses) != 1:
+            break
+        st2 = uses[0]
+        while st2 is not None and st2["k"] not in ("Let", "Assign", "AssignOp"):
+            st2 = t.parent.get(id(st2))
+        if st2 is None or st2 is st:
+            break
+        sub[st["pat"]["name"]] = r
+        st = st2
+        E = st["init"] if st["k"] == "Let" else st["r"]
+        r = ratfn.rat(E, None, sub)
     lin = ratfn.linear_in(r, "#E")
     if lin is None:
         ctx.violation("SPACING", fid, "not linear in the sample", hirq.loc(st), "`%s` is not of the form A + C * Exp1" % nf.nf(E, True)[:100])
